@@ -45,7 +45,7 @@ def _batch(ch: Any, n: int) -> Dict[str, Any]:
 
 def fam_batch(w: World) -> None:
     ch = w.ch
-    n = 2 + ch.draw(3, 'n')
+    n = 1 + ch.draw(4, 'n')
     info = _batch(ch, n)
     cfg = S.draw_config(ch, n, middlewares=True, handlers=True, force_async=True)
     cfg['max_batch_size'] = None
@@ -112,7 +112,7 @@ def evidence_extra(total: Dict[str, Any]) -> Dict[str, Any]:
 def systematic(tier: str):
     """Every (batch size, sequential flag, scheduler policy) combination, several seeds each."""
     reps = 40 if tier == 'quick' else 400
-    for n in range(3):
+    for n in range(4):
         for seq in (0, 2):            # flag(1, 3): raw 2 -> sequential
             for pol in (0, 2, 5, 7):  # weighted [2, 3, 2, 1] -> fifo, random, pct, lifo
                 for _ in range(reps):
